@@ -296,7 +296,9 @@ impl Epoch {
     /// assert_eq!(epoch.next(Weekday::Saturday), Epoch::from_gregorian_utc_at_midnight(1988, 1, 9));
     /// ```
     pub fn next(&self, weekday: Weekday) -> Self {
-        let delta_days = self.weekday() - weekday;
+        // The weekday is that of the calendar date in this epoch's own time scale, the one in which the whole
+        // days are then added.
+        let delta_days = self.weekday_of_gregorian_date() - weekday;
         if delta_days == Duration::ZERO {
             *self + 7 * Unit::Day
         } else {
@@ -306,33 +308,12 @@ impl Epoch {
 
     #[must_use]
     pub fn next_weekday_at_midnight(&self, weekday: Weekday) -> Self {
-        self.next_on_own_calendar(weekday).with_hms_strict(0, 0, 0)
+        self.next(weekday).with_hms_strict(0, 0, 0)
     }
 
     #[must_use]
     pub fn next_weekday_at_noon(&self, weekday: Weekday) -> Self {
-        self.next_on_own_calendar(weekday).with_hms_strict(12, 0, 0)
-    }
-
-    /// Same as `next`, but the weekday is that of the calendar date in this epoch's own time scale: the date
-    /// whose midnight or noon is then taken by `with_hms_strict` is the one of that calendar.
-    fn next_on_own_calendar(&self, weekday: Weekday) -> Self {
-        let delta_days = self.weekday_of_gregorian_date() - weekday;
-        if delta_days == Duration::ZERO {
-            *self + 7 * Unit::Day
-        } else {
-            *self + delta_days
-        }
-    }
-
-    /// Same as `previous`, but the weekday is that of the calendar date in this epoch's own time scale.
-    fn previous_on_own_calendar(&self, weekday: Weekday) -> Self {
-        let delta_days = weekday - self.weekday_of_gregorian_date();
-        if delta_days == Duration::ZERO {
-            *self - 7 * Unit::Day
-        } else {
-            *self - delta_days
-        }
+        self.next(weekday).with_hms_strict(12, 0, 0)
     }
 
     #[must_use]
@@ -351,7 +332,7 @@ impl Epoch {
     /// assert_eq!(epoch.previous(Weekday::Saturday), Epoch::from_gregorian_utc_at_midnight(1987, 12, 26));
     /// ```
     pub fn previous(&self, weekday: Weekday) -> Self {
-        let delta_days = weekday - self.weekday();
+        let delta_days = weekday - self.weekday_of_gregorian_date();
         if delta_days == Duration::ZERO {
             *self - 7 * Unit::Day
         } else {
@@ -361,14 +342,12 @@ impl Epoch {
 
     #[must_use]
     pub fn previous_weekday_at_midnight(&self, weekday: Weekday) -> Self {
-        self.previous_on_own_calendar(weekday)
-            .with_hms_strict(0, 0, 0)
+        self.previous(weekday).with_hms_strict(0, 0, 0)
     }
 
     #[must_use]
     pub fn previous_weekday_at_noon(&self, weekday: Weekday) -> Self {
-        self.previous_on_own_calendar(weekday)
-            .with_hms_strict(12, 0, 0)
+        self.previous(weekday).with_hms_strict(12, 0, 0)
     }
 }
 
